@@ -52,6 +52,7 @@ static std::vector<Bytes> alphabet(Tier t)
 		Bytes big(200, 'c'); big.push_back(0); big.insert(big.end(), 50, 'c'); big.push_back(0); big.insert(big.end(), 10, 'c');
 		big.push_back('a'); big.push_back(0); big.push_back(0); big.push_back('b'); m.push_back(big); }
 	if (t == Thorough) { m.push_back(Bytes(254, 'c')); m.push_back(Bytes(300, 'd')); }
+	if (t == Thorough) { Bytes p(31, 'a'); p.push_back(0); p.push_back(0); p.push_back('b'); m.push_back(p); }   // zero pair at the ZPE pair-code limit (31 data bytes)
 	return m;
 }
 static void sequences(Tier t, std::vector<std::vector<int>> &seqs)
@@ -63,7 +64,7 @@ static void sequences(Tier t, std::vector<std::vector<int>> &seqs)
 		for (int a = 0; a < 6; ++a) { if (a != 5) { seqs.push_back({a, 5}); seqs.push_back({5, a}); } }
 		seqs.push_back({5, 5});
 		for (int a = 0; a < 4; ++a) for (int b = 0; b < 4; ++b) for (int c = 0; c < 4; ++c) seqs.push_back({a, b, c});
-		for (int a : {6, 7, 8, 9}) for (int b : {1, 3}) { seqs.push_back({a, b}); seqs.push_back({b, a}); }
+		for (int a : {6, 7, 8, 9, 10}) for (int b : {1, 3}) { seqs.push_back({a, b}); seqs.push_back({b, a}); }
 	}
 }
 
